@@ -54,19 +54,24 @@ def main():
         shutil.copy(notes, os.path.join(d, "notes.md"))
     results = {}
     if confirmed:
-        rc, o = sh("git -C /repo status --short")
-        if o.strip():
-            print("REFUSING: /repo has local changes"); sys.exit(2)
-        rc, o = sh("git -C /repo apply %s" % os.path.join(d, "patch.diff"))
+        # EVAL_REPO=<scratch worktree of /repo>: the change is applied there and the checks are pointed at it (VERIF_REPO), so that
+        # several changes can be evaluated side by side; without it the change is applied to /repo itself and undone afterwards
+        repo = os.environ.get("EVAL_REPO", "/repo")
+        pre = "VERIF_REPO=%s " % repo if repo != "/repo" else ""
+        rc, o = sh("git -C %s status --short" % repo)
+        if [l for l in o.splitlines() if not l.endswith("OUT/")]:
+            print("REFUSING: %s has local changes" % repo); sys.exit(2)
+        rc, o = sh("git -C %s apply %s" % (repo, os.path.join(d, "patch.diff")))
         try:
             for c in checks.split(","):
-                rc, o = sh("bin/check %s --tier quick" % c, VERIF)
+                rc, o = sh(pre + "bin/check %s --tier quick" % c, VERIF)
                 lines = [l for l in o.splitlines() if l.startswith(("VIOLATION", "KNOWN-FINDING", "INCONCLUSIVE", "MODEL-DRIFT", "  clause"))]
                 results[c] = {"exit": rc, "output": lines[:8]}
                 print("  %s -> exit %d %s" % (c, rc, (lines[1].strip() if len(lines) > 1 else (lines[0] if lines else ""))[:160]))
         finally:
-            sh("git -C /repo checkout -- .")
-            sh("rm -f /verif/replays/*.json")
+            sh("git -C %s checkout -- ." % repo)
+            if repo == "/repo":
+                sh("rm -f /verif/replays/*.json")
     meta = {"name": name, "breaks": breaks.split(","), "source": "independent sub-agent given only the property text and a scratch worktree",
             "needs": open(notes).read() if os.path.exists(notes) else "",
             "confirmed_in_scratch_worktree": {"patch_applies": rc_apply == 0, "builds": rc_build == 0, "baseline_5_packages_pass": rc_base == 0,
